@@ -121,6 +121,15 @@ def decodeLength(encoded):
     return value
 
 
+def checkLength(packet_remaining, expected):
+    '''
+    Asserts that what follows the fixed header of a fixed-size 
+    control packet has exactly the expected length.
+    '''
+    if len(packet_remaining) != expected:
+        raise ValueError("Malformed packet: {0} bytes after the fixed header, expected {1}".format(len(packet_remaining), expected))
+
+
 # -------------------------------
 # MQTT Protocol Data Units (PDUs)
 # -------------------------------
@@ -323,6 +332,7 @@ class CONNACK(object):
         while packet[lenLen] & 0x80:
             lenLen += 1
         packet_remaining = packet[lenLen+1:]
+        checkLength(packet_remaining, 2)
         self.session = (packet_remaining[0] & 0x01) == 0x01 
         self.resultCode  = int(packet_remaining[1])
       
@@ -409,6 +419,8 @@ class SUBACK(object):
         while packet[lenLen] & 0x80:
             lenLen += 1
         packet_remaining = packet[lenLen+1:]
+        if len(packet_remaining) < 3:
+            raise ValueError("Malformed SUBACK: no return codes")
         self.msgId   = decode16Int(packet_remaining)
         # Make a sequence of tuples of (GrantedQoS, Failure Flag)
         self.granted = [ (byte & 0x7F, byte & 0x80 == 0x80) 
@@ -491,6 +503,7 @@ class UNSUBACK(object):
         while packet[lenLen] & 0x80:
             lenLen += 1
         packet_remaining = packet[lenLen+1:]
+        checkLength(packet_remaining, 2)
         self.msgId   = decode16Int(packet_remaining)
 
 
@@ -554,6 +567,8 @@ class PUBLISH(object):
         self.retain = (packet[0] & 0x01) == 0x01
         self.topic, _  = decodeString(packet_remaining)
         topicLen       = decode16Int(packet_remaining)
+        if len(packet_remaining) < topicLen + (4 if self.qos else 2):
+            raise ValueError("Malformed PUBLISH: topic or packet identifier overrun the packet")
         if self.qos:
             self.msgId = decode16Int( packet_remaining[topicLen+2:topicLen+4] )
             self.payload =  packet_remaining[topicLen+4:]
@@ -591,6 +606,7 @@ class PUBACK(object):
         while packet[lenLen] & 0x80:
             lenLen += 1
         packet_remaining = packet[lenLen+1:]
+        checkLength(packet_remaining, 2)
         self.msgId = decode16Int(packet_remaining)
 
 
@@ -623,6 +639,7 @@ class PUBREC(object):
         while packet[lenLen] & 0x80:
             lenLen += 1
         packet_remaining = packet[lenLen+1:]
+        checkLength(packet_remaining, 2)
         self.msgId = decode16Int(packet_remaining)
 
 
@@ -656,6 +673,7 @@ class PUBREL(object):
         while packet[lenLen] & 0x80:
             lenLen += 1
         packet_remaining = packet[lenLen+1:]
+        checkLength(packet_remaining, 2)
         self.msgId  = decode16Int(packet_remaining)
         self.dup = (packet[0] & 0x08) == 0x08
 
@@ -689,6 +707,7 @@ class PUBCOMP(object):
         while packet[lenLen] & 0x80:
             lenLen += 1
         packet_remaining = packet[lenLen+1:]
+        checkLength(packet_remaining, 2)
         self.msgId   = decode16Int(packet_remaining)
 
 # ------------------------------------------------------------------------------
